@@ -346,7 +346,7 @@ package io
 //@   loop 2 invariant [scan] 0 <= off && off <= length + 3 && utf16Length >= 0 && len(buf) == length
 //@   loop 2 invariant [sticky] old(dec.Error) != nil ==> dec.Error != nil
 //@   loop 3 invariant [shape] 0 <= need && need <= 3 && utf16Length >= 0 && 0 <= dec.tail && dec.tail <= len(dec.buf) && safe && data != nil && isnew(arr(data)) && arr(data) != arr(dec.buf)
-//@   loop 3 invariant [room] dec.reader != nil ==> (dec.buf == nil || len(dec.buf) > 0)
+//@   loop 3 invariant [room] dec.reader != nil ==> (dec.buf == nil || len(dec.buf) > 0) && ghost.rpos[ival(dec.reader)] >= 0
 //@   loop 3 invariant [memory] dec.reader == nil ==> same(dec.buf, old(dec.buf)) && dec.tail == old(dec.tail)
 //@   loop 3 invariant [memory_bytes] dec.reader == nil ==> forall(j, mem(dec.buf, j) == old(mem(dec.buf, j)))
 //@   loop 3 invariant [sticky] old(dec.Error) != nil ==> dec.Error != nil
